@@ -7,7 +7,7 @@ import manifest_src as M
 props = [json.loads(l)['id'] for l in open(os.path.join(ROOT, 'properties.jsonl'))]
 checks = []
 for pid in props:
-    if pid not in M.CHECKS:
+    if pid not in M.CHECKS or pid in getattr(M, 'SUSPENDED', {}):
         continue
     c = M.CHECKS[pid]
     checks.append({
@@ -21,8 +21,9 @@ for pid in props:
         'level_note': c['note'],
         'technique': c['technique'],
     })
-na = [{'property_id': p, 'reason': M.NOT_APPLICABLE.get(p, 'check not built yet in this round; not claimed')}
-      for p in props if p not in M.CHECKS]
+susp = getattr(M, 'SUSPENDED', {})
+na = [{'property_id': p, 'reason': susp.get(p) or M.NOT_APPLICABLE.get(p, 'check not built yet in this round; not claimed')}
+      for p in props if p not in M.CHECKS or p in susp]
 man = {
     'version': 1,
     'setup_cmd': './setup.sh',
